@@ -727,6 +727,9 @@ def run(res, replay=None):
     if not ok_proof:
         proof_failure_violation(res, found)
     return res.finish(trusted=[
+        "translator harness/srcexprs.py: clang 14's typed AST (-ast-dump=json, -std=c++17, this host's target) of the random_access_iterator operator+= / operator-(rhs) (16 header type pairs), "
+        "instantiated in a generated unit, copied node by node into CExpr.v terms (coq/SrcExprs.v, regenerated on every run); "
+        "trusted: clang's parse and the types it assigns, the one-to-one node mapping, CExpr.ceval as the meaning of a node",
         "CInt.v models integral promotion / usual arithmetic conversions / signed-overflow UB on LP64 (int=32 bit, "
         "ptrdiff_t=size_t=64 bit)",
         "pointer arithmetic is modelled as flat modular 64-bit address arithmetic (the C++ object-bounds rules for "
